@@ -44,7 +44,7 @@ def make_events(rng, keys, relay, n):
             tags.append(["n", 2 ** 70])
             label = "huge-int-in-tag"
         elif r < 0.16:
-            tags.append(["x", ["nested", 1]])
+            tags.append([rng.choice(["x", "t"]), ["nested", 1]])
             label = "nested-tag"
         elif r < 0.22:
             # short in characters, long in UTF-8 bytes: around LMDB's 511-byte key limit (name 1 + value + 38 bytes of suffix)
@@ -80,6 +80,30 @@ def run_session(report, drv, backend, rng, keys, tag):
     try:
         obs = Conn(relay, remote_addr="9.9.9.9")
         obs.send(["REQ", "watch", {"kinds": [0, 1, 5, 7, 10002, 30000, 20001]}])
+        # further live subscriptions of other clients, with tag conditions: whatever happens to *their* notification (a tag
+        # value their matcher cannot digest, a subscriber whose delivery fails) is not the next publisher's business
+        other = Conn(relay, remote_addr="8.8.8.8")
+        other.send(["REQ", "tagged", {"#x": ["v", "nested"]}, {"#t": ["x"]}])
+        if rng.random() < 0.4:
+            other.send(["REQ", "boom", {"kinds": [1, 7]}])
+            for client in relay.storage.clients.values():
+                if "boom" in client:
+                    class FailingQueue:
+                        """the subscriber's delivery queue fails for the first one or two live pushes"""
+
+                        def __init__(self, q, left):
+                            self._q, self._left = q, left
+
+                        async def put(self, item):
+                            if self._left > 0:
+                                self._left -= 1
+                                raise RuntimeError("injected: delivery to this subscriber failed")
+                            return await self._q.put(item)
+
+                        def __getattr__(self, name):
+                            return getattr(self._q, name)
+                    client["boom"].queue = FailingQueue(client["boom"].queue, rng.choice([1, 2]))
+            report.count("sessions_with_a_failing_subscriber_" + backend)
         c = Conn(relay)
         subs = make_events(rng, keys, relay, rng.randint(4, 10))
         if rng.random() < 0.3:
@@ -181,6 +205,7 @@ def run_session(report, drv, backend, rng, keys, tag):
                 break
         c.close()
         obs.close()
+        other.close()
         if relay.open_subscriptions():
             report.property_failure("%s: subscriptions survive their connections" % backend, {"backend": backend}, None)
         report.case((backend, tag, json.dumps([e["id"] for _, e in subs])), nontrivial=any(l != "valid" for l, _ in subs),
